@@ -46,8 +46,59 @@ META = {
 DEEP = {"postprocess_deepcopy", "postprocess_deepcopy_mutables"}
 
 
+_PROG = None  # set by each rule entry (the SQL text may be built by a module-level helper of the program)
+
+
+def _render(e: ast.AST, env: dict, depth: int = 3) -> str:
+    """Symbolic text of a string-building expression: constants verbatim, unknown run-time parts as `?`.
+    Understands concatenation, f-strings, `'..{}..'.format(a, b)` with plain positional fields, `' '.join([...])`,
+    parameters bound in `env` and calls of program functions whose single return builds the text."""
+    if isinstance(e, ast.Constant):
+        return e.value if isinstance(e.value, str) else "?"
+    if isinstance(e, ast.Name):
+        return env.get(e.id, "?")
+    if isinstance(e, ast.JoinedStr):
+        return "".join(v.value if isinstance(v, ast.Constant) else _render(v.value, env, depth) for v in e.values)
+    if isinstance(e, ast.BinOp) and isinstance(e.op, ast.Add):
+        return _render(e.left, env, depth) + _render(e.right, env, depth)
+    if isinstance(e, ast.Call):
+        fn = e.func
+        if isinstance(fn, ast.Attribute) and fn.attr == "format" and not e.keywords:
+            tpl = _render(fn.value, env, depth)
+            args = [_render(a, env, depth) for a in e.args]
+            out, i = [], 0
+            for piece in re.split(r"(\{\})", tpl):
+                if piece == "{}":
+                    out.append(args[i] if i < len(args) else "?")
+                    i += 1
+                else:
+                    out.append(piece)
+            return "".join(out)
+        if isinstance(fn, ast.Attribute) and fn.attr == "join":
+            return "?"
+        if _PROG is not None and depth > 0 and isinstance(fn, (ast.Name, ast.Attribute)):
+            name = fn.id if isinstance(fn, ast.Name) else fn.attr
+            cands = [h for h in _PROG.functions.values() if h.name == name and h.cls is None and any(h.file.startswith(x) for x in ("streamflow/persistence/",))]
+            if len(cands) == 1:
+                h = cands[0]
+                rets = [n for n in h.body_nodes() if isinstance(n, ast.Return) and n.value is not None]
+                if len(rets) == 1 and not any(isinstance(a, ast.Starred) for a in e.args):
+                    params = [a.arg for a in h.node.args.posonlyargs + h.node.args.args]
+                    sub = {pn: _render(a, env, depth) for pn, a in zip(params, e.args)}
+                    sub.update({k.arg: _render(k.value, env, depth) for k in e.keywords if k.arg})
+                    val = rets[0].value
+                    if isinstance(val, ast.Name):
+                        from ..dataflow import defs_of
+
+                        ds = [d for d in defs_of(h, val.id) if d.kind == "assign" and d.value is not None]
+                        if len(ds) == 1:
+                            val = ds[0].value
+                    return _render(val, sub, depth - 1)
+    return "?"
+
+
 def _sql_of(call: ast.Call) -> str | None:
-    """Concatenated constant text of the first argument of an execute-like call."""
+    """Text of the first argument of an execute-like call (constant parts; run-time parts appear as `?`)."""
     if not call.args:
         return None
     a = call.args[0]
@@ -55,9 +106,13 @@ def _sql_of(call: ast.Call) -> str | None:
     for n in ast.walk(a):
         if isinstance(n, ast.Constant) and isinstance(n.value, str):
             parts.append((getattr(n, "lineno", 0), getattr(n, "col_offset", 0), n.value))
-    if not parts:
-        return None
-    return " ".join(p[2] for p in sorted(parts))
+    txt = " ".join(p[2] for p in sorted(parts)) if parts else None
+    # a statement built by a helper / a format template: render it symbolically
+    if txt is None or not re.match(r"\s*(SELECT|UPDATE|DELETE|INSERT|REPLACE|CREATE|PRAGMA|WITH|ALTER|DROP|BEGIN|COMMIT)\b", txt, flags=re.I) or "{}" in txt:
+        r = _render(a, {})
+        if re.match(r"\s*(SELECT|UPDATE|DELETE|INSERT|REPLACE|CREATE|PRAGMA|WITH|ALTER|DROP)\b", r, flags=re.I):
+            return r
+    return txt
 
 
 def _tables_read(sql: str) -> set[str]:
@@ -98,6 +153,8 @@ def _cache_attr(dec: ast.Call) -> str | None:
 
 
 def _getters(ctx):
+    global _PROG
+    _PROG = ctx.prog
     """{getter name: (Func, cache attr, tables read)} for every memoised getter of CachedDatabase subclasses."""
     p = ctx.prog
     out = {}
@@ -188,7 +245,8 @@ def r1(ctx):
 
 
 def r2(ctx):
-    p = ctx.prog
+    global _PROG
+    p = _PROG = ctx.prog
     getters = _getters(ctx)
     table_cache = {}
     for q, (f, attr, tables, dec) in getters.items():
@@ -296,7 +354,8 @@ def r5(ctx):
 
 
 def r6(ctx):
-    p = ctx.prog
+    global _PROG
+    p = _PROG = ctx.prog
     cls = p.cls(DB)
     n = 0
     for m in cls.methods.values():
